@@ -28,6 +28,10 @@ type Cfg struct {
 	HotT    []int   `json:"hotspot_threshold"`
 	Conc    bool    `json:"concurrent,omitempty"`
 	ChkLate bool    `json:"scripted_check_before_rules,omitempty"`
+	// NilPanic: the scripted slots panic with a nil value. The worker is built with //go:debug panicnil=1 (the
+	// default of every main module that declares a Go version below 1.21), under which recover() then returns nil:
+	// a recovery that recognises a panic by "recover() != nil" takes it for a normal return.
+	NilPanic bool `json:"nil_panic,omitempty"`
 	_       float64 // keep struct comparable-free
 }
 
@@ -49,7 +53,7 @@ func (P) Engine() string { return "E1+E2" }
 
 func (P) Describe() harness.Description {
 	return harness.Description{
-		MustHit: []string{"internal_panic_path", "late_trace_error", "repeated_or_late_exit", "pool_object_reused"},
+		MustHit: []string{"scripted_slots_panic_with_a_nil_value", "internal_panic_path", "late_trace_error", "repeated_or_late_exit", "pool_object_reused"},
 		Level:   "exploration",
 		Rule: "case = (1-3 resources with optional real flow / isolation / hotspot rules, chain = fresh default chain + scripted prepare slot + scripted rule-check slot + recording stat slot; 10-60 ops: Entry(batch 1..2^32-1, inbound/outbound, argument lists incl. un-hashable values that make the hotspot check panic, script pass/block/panic-in-prepare/panic-in-check/nil), TraceError, Exit, Exit(WithError), repeated and late calls, ticks); " +
 			"after every op: one outcome per Entry, exactly one pass|block callback with the right resource and batch, exactly one completion per passed entry with its own last error and rt, none for blocked, late calls change nothing (callback log, figures, other live entries' Err()/Args), node and inbound concurrency == live entries (never negative), windowed sums == reference window of the tallied events. " +
@@ -87,6 +91,7 @@ func (P) Gen(rng *sim.Rng, tier string) *harness.Case {
 	cfg := Cfg{NRes: rng.Range(1, 3), Origin: 1700000000000 + rng.U64Range(0, 100000)}
 	cfg.Conc = rng.Chance(0.25)
 	cfg.ChkLate = rng.Chance(0.5)
+	cfg.NilPanic = rng.Chance(0.2)
 	for r := 0; r < cfg.NRes; r++ {
 		ft, in, ht := -1, 0, -1
 		if rng.Chance(0.3) {
@@ -189,11 +194,18 @@ func (P) Gen(rng *sim.Rng, tier string) *harness.Case {
 
 // ---- scripted slots and recorder -------------------------------------------------
 
+// scriptNilPanic is set from the case's configuration before the run starts (read-only while callers run)
+var scriptNilPanic bool
+
 type prepSlot struct{}
 
 func (prepSlot) Order() uint32 { return 2000 }
 func (prepSlot) Prepare(ctx *base.EntryContext) {
 	if ctx.Input.Flag&0xff == sPanicPrepare {
+		if scriptNilPanic {
+			var none error
+			panic(none)
+		}
 		panic("scripted panic in prepare slot")
 	}
 }
@@ -206,6 +218,10 @@ func (s checkSlot) Check(ctx *base.EntryContext) *base.TokenResult {
 	case sBlock:
 		return base.NewTokenResultBlockedWithMessage(base.BlockTypeUnknown, "scripted block")
 	case sPanicCheck:
+		if scriptNilPanic {
+			var none error
+			panic(none)
+		}
 		panic("scripted panic in rule-check slot")
 	case sNilCheck:
 		return nil
@@ -369,6 +385,10 @@ func (P) Exec(c *harness.Case) *harness.Outcome {
 		return o
 	}
 	env := harness.Reset(cfg.Origin*1e6, harness.DefaultGeometry())
+	scriptNilPanic = cfg.NilPanic
+	if cfg.NilPanic {
+		o.Probe("scripted_slots_panic_with_a_nil_value")
+	}
 	pc := harness.InstallPool(c)
 	defer func() {
 		if pc != nil {
